@@ -21,6 +21,8 @@ func VerifScanTokens(src string) ([]string, int) {
 			break
 		}
 		switch {
+		case t == ERROR:
+			out = append(out, "ERR:")
 		case t == IDENT:
 			out = append(out, "IDENT:"+lval.ident)
 		case t == INTEGER:
@@ -38,5 +40,9 @@ func VerifScanTokens(src string) ([]string, int) {
 			break
 		}
 	}
-	return out, l.s.ErrorCount
+	errs := l.s.ErrorCount
+	if l.err != nil && errs == 0 {
+		errs = 1
+	}
+	return out, errs
 }
